@@ -35,13 +35,13 @@ PROPS["C02"] = {
     "rule": "case = one seeded mutating history; a crash point = every boundary between API calls at which no handle holds "
             "unflushed data; at each, the MonFile bytes taken WITHOUT flush are reopened permissive and strict and the full dump "
             "compared with model and live object; 15% of crash points fork the next 5-15 operations onto the reopened file; a fifth of the histories start from a synthesised foreign layout; four shards run a large scenario instead (v3 past the first DIFAT sector - thorough: the second -, v4 past 1024 sectors, v4 past 1024 mini sectors and 32 directory entries) with a crash point at every new FAT / MiniFAT / directory sector (in quick the second and third DIFAT sectors are reached by one 17 MB set_len at the end); six shards first run the beyond-4-GiB scenario on a sparse store (five version 4 variants around 2^32, one version 3 stream of 2 GiB and a little), one shard a storage with 33100 children (more than 8192 directory sectors) with removals and creations among the last entries. "
-            "non-trivial = history of >= 5 steps that was not abandoned; distinct = FNV-64 of (version, step list)",
+            "One quiescent point in thirty runs a scattered-patches episode (one handle with a warm window patches a scratch stream in several places in no particular order between two flushes; the handle and the stored bytes must both show the patched content). non-trivial = history of >= 5 steps that was not abandoned; distinct = FNV-64 of (version, step list)",
     "assumptions": COMMON_ASSUMPTIONS + ["only logical results are compared after a reopen (free lists are rebuilt in index order, so byte images may legitimately differ)"],
     "checked_share": 0.6,
     "quick": {"budget_s": 20},
     "thorough": {"budget_s": 300},
     "floors": {
-        "quick": {"crash_points": 50000, "forks": 5000, "hdr_change.num_fat_sectors": 100, "hdr_change.num_minifat": 1000, "hdr_change.first_minifat": 500,
+        "quick": {"scattered_patch_episodes_checked": 300, "crash_points": 50000, "forks": 5000, "hdr_change.num_fat_sectors": 100, "hdr_change.num_minifat": 1000, "hdr_change.first_minifat": 500,
                   "large_scenarios": 4, "huge.scenarios_passed": 5, "large_scenario.crash_points_past_second_difat_sector": 1, "large_scenario.crash_points_past_third_difat_sector": 1, "wide.persist_scenarios_passed": 1, "large_scenario.crash_points_with_difat_sector": 10, "large_scenario.variant1.crash_points": 4, "large_scenario.variant3.crash_points": 6},
         "thorough": {"crash_points": 500000, "forks": 50000},
     },
@@ -147,13 +147,13 @@ PROPS["C10"] = {
             "existing name incl. case variant, non-empty storage, root, escaping path, invalid name, multi-step create_storage_all / "
             "remove_storage_all, out-of-range seek with a dirty buffer), long-lived dirty handles mixed in; for every call the model "
             "predicts as refused and that is refused: zero write events on the backing store, bytes identical, handle len/position "
-            "unchanged, and all later dumps equal a model that never saw the call; a call refused with NotFound / AlreadyExists / InvalidInput although the model expected success must leave the bytes unchanged too; eight shards first run a wide scenario (storage with 1023-1500 children in a chain: five predicted refusals, then remove_stream of the deepest and a mid-chain entry and remove_storage_all, each judged if refused); one shard grows a version 3 stream to 2 GiB - 1, 2 GiB, 2 GiB + 1000 on a sparse store (a refusal there must leave the store unchanged). non-trivial = >= 3 refusals checked; distinct = FNV-64 of steps",
+            "unchanged, and all later dumps equal a model that never saw the call; a call refused with NotFound / AlreadyExists / InvalidInput although the model expected success must leave the bytes unchanged too; eight shards first run a wide scenario (storage with 1023-1500 children in a chain: five predicted refusals, then remove_stream of the deepest and a mid-chain entry and remove_storage_all, each judged if refused); one shard grows a version 3 stream to 2 GiB - 1, 2 GiB, 2 GiB + 1000 on a sparse store (a refusal there must leave the store unchanged). One quiescent point in 25 runs a stale-handle episode: two handles opened together on a scratch stream, a third resizes it and goes away, one of the two makes out-of-range seeks (store untouched, len() unmoved after each), then both are asked the same questions and must answer alike. Refusal steps also come as "refused, obstacle repaired, same call again" sequences. non-trivial = >= 3 refusals checked; distinct = FNV-64 of steps",
     "assumptions": COMMON_ASSUMPTIONS,
     "checked_share": 0.6,
     "quick": {"budget_s": 18},
     "thorough": {"budget_s": 240},
     "floors": {
-        "quick": {"refusals_checked": 300000, "refusals_multi_step": 30000, "refusals_with_dirty_handle_present": 20000,
+        "quick": {"stale_handle_refusal_episodes": 3000, "refusals_checked": 300000, "refusals_multi_step": 30000, "refusals_with_dirty_handle_present": 20000,
                   "refusal.seek | refuse:out_of_range+dirty_buffer": 2000, "refusal.create_storage_all | refuse:invalid_name": 10000,
                   "refusal.create_storage | refuse:parent_is_stream": 5000, "refusal.remove_storage | refuse:not_empty": 5000, "wide.noeffect_scenarios_passed": 8, "wide.refusals_checked": 30, "huge.v3_limit_probes": 1},
         "thorough": {"refusals_checked": 3000000},
